@@ -87,6 +87,16 @@ static void pair_case(Rng &r) {
   StaticSite A = make(r, ra, pa, dy), B = make(r, rb, pb, dy);
   eeInteractor ee;
   double e12 = ee.CalcStaticEnergy_site(A, B), e21 = ee.CalcStaticEnergy_site(B, A);
+  // one pair in three is evaluated through the sibling class: polarisable sites with the same permanent moments and a non-zero
+  // induced dipole left over from an induction step; the static pair energy is that of the permanent moments
+  if (r.below(3) == 0) {
+    PolarSite PA(0, "C", A.getPos()), PB(1, "C", B.getPos());
+    PA.setMultipole(A.Q(), ra); PB.setMultipole(B.Q(), rb);
+    PA.setpolarization(M::Identity() * (0.5 + r.unit())); PB.setpolarization(M::Identity() * (0.5 + r.unit()));
+    PA.setInduced_Dipole(V3d(r.unit() - 0.5, r.unit() - 0.5, r.unit() - 0.5));
+    PB.setInduced_Dipole(V3d(r.unit() - 0.5, r.unit() - 0.5, r.unit() - 0.5));
+    e12 = ee.CalcStaticEnergy_site(PA, PB); e21 = ee.CalcStaticEnergy_site(PB, PA);
+  }
   // translation
   V3d t((r.unit() - 0.5) * 50, (r.unit() - 0.5) * 50, (r.unit() - 0.5) * 50);
   StaticSite At = A, Bt = B; At.Translate(t); Bt.Translate(t);
